@@ -16,6 +16,7 @@ std::string Op::text() const {
         for (size_t i = 0; i < clock.size(); ++i) s += (i ? "," : "") + strf("%llu", (unsigned long long)clock[i]);
     }
     if (fail) s += strf(" fail=%llu", (unsigned long long)fail);
+    if (reinj) s += strf(" reinj=%llu", (unsigned long long)reinj);
     return s;
 }
 
@@ -39,6 +40,7 @@ bool Op::parse(const std::string& line, Op& o) {
         else if (k == "b") o.b = strtoull(v.c_str(), nullptr, 10);
         else if (k == "data") o.data = unhex(v);
         else if (k == "fail") o.fail = strtoull(v.c_str(), nullptr, 10);
+        else if (k == "reinj") o.reinj = strtoull(v.c_str(), nullptr, 10);
         else if (k == "clock") {
             size_t p = 0;
             while (p <= v.size()) { size_t c = v.find(',', p); if (c == std::string::npos) c = v.size(); o.clock.push_back(strtoull(v.substr(p, c - p).c_str(), nullptr, 10)); p = c + 1; }
